@@ -22,7 +22,7 @@ import (
 
 func init() { subs["chartio"] = corrChartIO }
 
-var fileNameAtoms = []string{"README.md", "files/a.txt", "files/deep/b.bin", ".dotfile", "files/.hidden", "files/ünï.txt", "LICENSE", "crds/c.yaml", "files/with space.txt", "files/a.b.c", "ci/values.yaml"}
+var fileNameAtoms = []string{"README.md", "files/a.txt", "files/deep/b.bin", ".dotfile", "files/.hidden", "files/ünï.txt", "LICENSE", "crds/c.yaml", "files/with space.txt", "files/a.b.c", "ci/values.yaml", "files/._state", ".DS_Store", "files/~backup", "files/x.tgz", "files/Chart.yaml", "files/templates/t.yaml", "files/.helmignore2", "files/UPPER.TXT", "files/-dash", "files/a..b"}
 var tplNameAtoms = []string{"templates/a.yaml", "templates/_helpers.tpl", "templates/NOTES.txt", "templates/sub/b.yaml", "templates/tests/t.yaml", "templates/ü.yaml"}
 
 func genData(r *Rng) []byte {
